@@ -119,7 +119,7 @@ def run_bridge(out, stream, dgrams):
             log, nh, nw, complete = await world.feed_bridge(1, [(0, d)], (), c05.show, sentinel)
             if not complete: res.append("barrier-lost")
             elif nh: res.append("raised")
-            elif nw: res.append("warned")
+            elif nw or world.feed_bridge.other_warnings: res.append("warned")          # any warning at all (the checks run under -b: a logged bytes object is one)
             elif log: res.append("delivered")
             else: res.append("ignored")
         return res
@@ -250,18 +250,40 @@ def run(tier, rnd, out):
     longer = [c + world.rand_bytes(rnd, k) for c in c05.captures() for k in (1, 2, 3, 4, 40, 300, 1000)]
     longer += [b"\xfe\xf0" + world.rand_bytes(rnd, n - 2) for n in (169, 170, 200, 256, 336, 400, 1400)]
     run_bridge(out, "through-a-running-bridge", [b"", b"\0", b"\xfe", b"\xfe\xf0"] + rnd.sample(cs, 60 if tier == "quick" else 600) + longer)
+    lg.addHandler(h); lg.setLevel(logging.DEBUG)          # ... and with someone debugging (a handler that formats every record; the interpreter runs under -b)
+    try: run_bridge(out, "through-a-running-bridge-with-debug-logging-enabled", [b"", b"\0", b"\xfe\xf0", world.rand_bytes(rnd, 165)] + rnd.sample(cs, 25 if tier == "quick" else 300))
+    finally: lg.setLevel(old); lg.removeHandler(h)
     run_then_genuine(out, rnd, [b"", b"\0", b"\xfe\xf0", b"\xfe\xf0" + bytes(163), world.rand_bytes(rnd, 165), world.rand_bytes(rnd, 1400)] + rnd.sample(cs, 10 if tier == "quick" else 200))
     run_pairs(out, rnd)
     run_flood(out, rnd, tier)
     run_split_and_ports(out, rnd)
     run_while_starting(out, rnd, 6 if tier == "quick" else 60)
+    # a bridge on the library's default ports: the gate is the same on each of them - an unknown-model frame of any of the three lengths is
+    # warned about on every port, junk is ignored on every port
+    if world.well_known_ports():
+        try:
+            frames = []
+            for L in (159, 165, 168):
+                x = bytearray(world.rand_bytes(rnd, L)); x[0:2] = b"\xfe\xf0"; x[74:76] = b"\xee\xee"; x[42:74] = b"dflt".ljust(32, b"\0"); frames.append(bytes(x))
+            events = [(p_, f_) for p_ in range(4) for f_ in frames + [world.rand_bytes(rnd, 165), b"\xfe\xf0" + bytes(100)]]
+            async def dflt():
+                return await world.feed_bridge(4, events, (), c05.show, sentinel, ports=world.WELL_KNOWN_PORTS, serial=True)
+            log, nh, nw, complete = asyncio.run(dflt())
+            got = "barrier-lost" if not complete else "%d devices, %d warnings, %d errors" % (len(log), nw, nh)
+            lib.differential(out, "a-bridge-on-its-default-ports", [{"ports": world.WELL_KNOWN_PORTS, "unknown_model_frames_per_port": 3, "junk_per_port": 2}], [got], None, ["0 devices, 12 warnings, 0 errors"],
+                             lambda c: "unknown-model frames of 159, 165 and 168 bytes and two junk datagrams to each of the ports %s" % c["ports"], sample=lambda c: c)
+        finally: world.release_well_known_ports()
+    else: out.notes.append("the library's default ports were not available on this machine for a minute: stream a-bridge-on-its-default-ports not run")
     out.exhaustive = tier == "thorough"
     out.notes.append("thorough enumerates all 65536 model codes on each accepted length")
 
 
 def replay(rp, out):
+    if "unknown_model_frames_per_port" in rp["input"]:
+        import random
+        return run("quick", random.Random(int(rp.get("seed", 1))), out)
     if "sent_while_starting" in rp["input"]:
         import random
         return run_while_starting(out, random.Random(int(rp.get("seed", 1))), 20)
     d = bytes.fromhex(rp["input"]["d"])
-    (run_bridge if rp.get("stream") == "through-a-running-bridge" else run_direct)(out, rp.get("stream", "replay"), [d])
+    (run_bridge if (rp.get("stream") or "").startswith("through-a-running-bridge") else run_direct)(out, rp.get("stream", "replay"), [d])
